@@ -3,6 +3,9 @@
 package engines
 
 import (
+	"crypto/elliptic"
+	"crypto/ecdsa"
+	"crypto"
 	"bytes"
 	"crypto/ed25519"
 	"crypto/rand"
@@ -93,6 +96,7 @@ type advClient struct {
 	chain      [][]byte
 	leaf       *x509.Certificate
 	key        ed25519.PrivateKey
+	otherKey   crypto.PrivateKey // set when the presented certificate's key is not Ed25519
 	holdsKey   bool
 	req        *types.GenerateServerCertificatesRequest
 	extras     []string
@@ -293,7 +297,7 @@ func c02Adversary(r *kernel.Run, tp *kernel.Tape, w *Wire, srv *World, loader bo
 	}
 	adv := &advClient{}
 	// ---- which certificate and key the client presents
-	certKind := Pick2(tp, "own", "own", "own", "stolen-leaf", "foreign-root", "self-signed", "server-auth-for-victim", "server-auth-for-victim")
+	certKind := Pick2(tp, "own", "own", "own", "stolen-leaf", "foreign-root", "self-signed", "server-auth-for-victim", "server-auth-for-victim", "self-signed-p256-naming-victim")
 	claim := me
 	bundle := me.creds.CertificateBundles[tp.Draw(2)]
 	_, atkKey, _ := ed25519.GenerateKey(rand.Reader)
@@ -316,6 +320,17 @@ func c02Adversary(r *kernel.Run, tp *kernel.Tape, w *Wire, srv *World, loader bo
 		claim = victim
 		der := mintLeaf(nil, atkKey, atkPub, victim.id.Pkix, victim.id.KeyId, x509.ExtKeyUsageClientAuth, now.Add(-time.Hour), now.Add(24*time.Hour))
 		adv.chain, adv.key, adv.holdsKey = [][]byte{der}, atkKey, true
+	case "self-signed-p256-naming-victim":
+		// a self-signed certificate of ANOTHER key algorithm whose subject key ID names the victim's key
+		claim = victim
+		ek, _ := ecdsa.GenerateKey(elliptic.P256(), rand.Reader)
+		tmpl := &x509.Certificate{SerialNumber: big.NewInt(77), Subject: pkix.Name{CommonName: victim.id.KeyId}, DNSNames: []string{victim.id.KeyId}, SubjectKeyId: victim.id.Pkix,
+			NotBefore: now.Add(-time.Hour), NotAfter: now.Add(24 * time.Hour), KeyUsage: x509.KeyUsageDigitalSignature | x509.KeyUsageCertSign, ExtKeyUsage: []x509.ExtKeyUsage{x509.ExtKeyUsageClientAuth}, IsCA: true, BasicConstraintsValid: true}
+		der, err := x509.CreateCertificate(rand.Reader, tmpl, tmpl, &ek.PublicKey, ek)
+		if err != nil {
+			r.HarnessErr("p256 cert: %v", err)
+		}
+		adv.chain, adv.key, adv.otherKey, adv.holdsKey = [][]byte{der}, atkKey, ek, true
 	case "server-auth-for-victim":
 		// what any intermediate hop can obtain: a server-side leaf minted by the real roots for the victim's key
 		claim = victim
@@ -426,6 +441,9 @@ func c02Adversary(r *kernel.Run, tp *kernel.Tape, w *Wire, srv *World, loader bo
 
 	cfg := &tls.Config{NextProtos: alpn, InsecureSkipVerify: true, MinVersion: tls.VersionTLS13, ServerName: "server",
 		GetClientCertificate: func(*tls.CertificateRequestInfo) (*tls.Certificate, error) {
+			if adv.otherKey != nil {
+				return &tls.Certificate{Certificate: adv.chain, PrivateKey: adv.otherKey}, nil
+			}
 			return &tls.Certificate{Certificate: adv.chain, PrivateKey: adv.key}, nil
 		}}
 	res := w.rawClient(fmt.Sprintf("adv%d", r.NextID()), cfg)
